@@ -24,6 +24,8 @@ import MagpyVerif.Lemmas.Display
 import MagpyVerif.Lemmas.DisplayTrig
 import MagpyVerif.Lemmas.DisplayIdx
 import MagpyVerif.Lemmas.DisplayUnit
+import MagpyVerif.Lemmas.DisplayWind
+import MagpyVerif.Lemmas.DisplayGroup
 namespace MagpyVerif.C19
 open MagpyVerif.Gen
 
@@ -1094,4 +1096,172 @@ theorem arrow_index_structure (N : Nat) (hN : 0 < N) :
 
 example : arrowTriangles 3 = .ok [(0, 1, 3), (1, 2, 3), (2, 0, 3), (4, 5, 7), (5, 6, 8), (6, 4, 9), (7, 5, 8), (8, 6, 9), (9, 4, 7),
     (4, 10, 5), (5, 10, 6), (6, 10, 4), (7, 8, 11), (8, 9, 11), (9, 7, 11)] := by decide
+end MagpyVerif.C19
+
+
+/-! ## Winding of the closed surface meshes, for EVERY size (Lemmas/DisplayWind.lean; `wind` rows of the `disp` stream)
+
+`Display.dirOf fs` lists the directed edges `i→j, j→k, k→i` of all triangles; `Display.Wound fs` (no directed edge used twice) is
+"consistently wound"; `Display.windingDefects fs` (run by the driver on every generator and compared with the same computation on
+the real index arrays) lists the directed edges that are not used exactly once. -/
+
+namespace MagpyVerif.C19
+open MagpyVerif.Display MagpyVerif.Mesh
+
+/-- what "closed and consistently wound" gives: every edge of the surface is used exactly once in each direction -/
+theorem closed_and_wound_each_direction_once {fs : List Face} (hc : openEdges fs = []) (hw : Wound fs)
+    (hd : ∀ t ∈ fs, t.1 ≠ t.2.1 ∧ t.2.1 ≠ t.2.2 ∧ t.1 ≠ t.2.2) :
+    ∀ a b, (a, b) ∈ dirOf fs → (dirOf fs).count (a, b) = 1 ∧ (dirOf fs).count (b, a) = 1 :=
+  closed_wound_each_direction_once hc hw hd
+
+/- FULL: `Wound (segTriangles N false)` — the CylinderSegment graphic is consistently wound.  FALSE of this tree for every arc
+   count `N ≥ 2` (the real function uses `N ≥ 5`): the two triangles `(0, 3N, 2N)`, `(N, 3N, 0)` of the cap at `phi1` are wound
+   against the rest of the surface.  Proved instead: the exact multiplicity of every directed edge. -/
+/-- `make_CylinderSegment` with the end caps drawn (`phi2 - phi1 != 360`), EVERY arc count `N ≥ 2`.  With the vertex rows
+`a_q = q` (inner top), `b_q = q + N` (outer top), `c_q = q + 2N` (inner bottom), `d_q = q + 3N` (outer bottom):
+* the four directed edges `a₀→b₀, b₀→d₀, d₀→c₀, c₀→a₀` = `segBadEdges N` (the boundary of the start-cap quad) are used TWICE —
+  once by a start-cap triangle and once by the adjoining top / outer / bottom / inner surface — and their reverses never;
+* every other directed edge that occurs is used exactly once and so is its reverse (in particular the cap diagonal `a₀d₀`, the
+  whole end cap at `phi2`, and all four curved / flat surfaces are mutually consistent);
+* hence `windingDefects` is exactly that set, the surface is NOT consistently wound,
+* and turning over exactly the two start-cap triangles (`segStartCapFlipped`: `(0, 2N, 3N)`, `(N, 0, 3N)`) gives a closed,
+  consistently wound surface: the set of offending faces is exactly the start cap. -/
+theorem cylinder_segment_winding_partial (N : Nat) (hN : 2 ≤ N) :
+    segTriangles N false = segSpec N ++ (segStartCap N ++ segEndCap N) ∧
+    (∀ e ∈ segBadEdges N, (dirOf (segTriangles N false)).count e = 2 ∧ (dirOf (segTriangles N false)).count (e.2, e.1) = 0) ∧
+    (∀ a b, (a, b) ∈ dirOf (segTriangles N false) → (a, b) ∉ segBadEdges N →
+      (dirOf (segTriangles N false)).count (a, b) = 1 ∧ (dirOf (segTriangles N false)).count (b, a) = 1) ∧
+    (∀ e, e ∈ windingDefects (segTriangles N false) ↔ e ∈ segBadEdges N) ∧
+    ¬ Wound (segTriangles N false) ∧
+    Wound (segSpec N ++ segEndCap N ++ segStartCapFlipped N) ∧ openEdges (segSpec N ++ segEndCap N ++ segStartCapFlipped N) = [] := by
+  have heq : segTriangles N false = segSpec N ++ segCaps N := by rw [segTriangles_eq]; rfl
+  obtain ⟨hbad, hone⟩ := seg_dir_multiplicities hN
+  have hclosed := segSpec_caps_closed hN
+  have hidx := (cylinder_segment_mesh_closed_N N hN).2.2.2
+  rw [heq] at hidx ⊢
+  have hbadmem : ∀ e ∈ segBadEdges N, e ∈ dirOf (segSpec N ++ segCaps N) := fun e he =>
+    List.count_pos_iff.1 (by rw [(hbad e he).1]; norm_num)
+  refine ⟨rfl, hbad, ?_, ?_, ?_, segFixed_wound hN, segFixed_closed hN⟩
+  · intro a b hab hnb
+    have h1 := hone (a, b) hab hnb
+    have hne : a ≠ b := by
+      simp only [dirOf, List.mem_flatMap, dirEdges, List.mem_cons, Prod.mk.injEq, List.not_mem_nil, or_false] at hab
+      obtain ⟨f, hf, h⟩ := hab
+      obtain ⟨d1, d2, d3, _⟩ := hidx f hf
+      rcases h with ⟨rfl, rfl⟩ | ⟨rfl, rfl⟩ | ⟨rfl, rfl⟩
+      · exact d1
+      · exact d2
+      · exact fun e => d3 e.symm
+    have h2 := count_two_of_openEdges_nil hclosed _ (mem_edgesOf_of_mem_dirOf hab)
+    rw [edgesOf_count_eq_dir _ a b hne] at h2
+    exact ⟨h1, by omega⟩
+  · intro e
+    rw [mem_windingDefects]
+    constructor
+    · rintro ⟨h1, h2⟩
+      by_contra hc
+      exact h2 (hone e h1 hc)
+    · intro he
+      exact ⟨hbadmem e he, by rw [(hbad e he).1]; norm_num⟩
+  · intro hw
+    have h0 : (0, N) ∈ segBadEdges N := by simp [segBadEdges]
+    have := List.count_eq_one_of_mem hw (hbadmem _ h0)
+    rw [(hbad _ h0).1] at this
+    norm_num at this
+
+example : windingDefects (segTriangles 5 false) = [(0, 5), (15, 10), (10, 0), (5, 15)] := by decide
+example : segBadEdges 5 = [(0, 5), (5, 15), (15, 10), (10, 0)] := by decide
+/-- the same for the function's own arguments: whatever `vert`, radii and angle range, as soon as the caps are drawn -/
+theorem cylinder_segment_not_consistently_wound (vert : Nat) (phi1 phi2 : ℝ) (h : phi2 - phi1 ≠ 360) :
+    let r := segIJKOf vert phi1 phi2
+    ¬ Wound (zip3 r.1 r.2.1 r.2.2) := by
+  have hf : segFull phi1 phi2 = false := by
+    simp only [segFull, Kern.eq0_real, Kern.n, Kern.ofNat_real, decide_eq_false_iff_not]
+    intro hc
+    apply h
+    push_cast at hc
+    linarith
+  have := (cylinder_segment_winding_partial (DisplayTrig.segN vert phi1 phi2)
+    (le_trans (by norm_num) (DisplayTrig.le_segN vert phi1 phi2))).2.2.2.2.1
+  simpa [segIJKOf, hf, segTriangles] using this
+
+end MagpyVerif.C19
+
+
+/-! ## `group_traces` / `merge_traces` (Model/DisplayGroup.lean; `group` rows of the `disp` stream) -/
+
+namespace MagpyVerif.C19
+open MagpyVerif.Display MagpyVerif.Gen
+
+/-- the grouping loop of `group_traces`: the groups are the distinct key strings in order of FIRST APPEARANCE, each with exactly
+the inputs that have this key, in input order.  Hence every input trace lands in exactly one group (the one of its key), and the
+group keys are pairwise different. -/
+theorem group_traces_partition (ts : List GTrace) :
+    groupBy groupKey ts = (ts.map groupKey).eraseDups.map (fun k => (k, ts.filter (fun t => groupKey t == k))) ∧
+    (∀ t ∈ ts, ∀ g ∈ groupBy groupKey ts, t ∈ g.2 ↔ g.1 = groupKey t) ∧
+    ((groupBy groupKey ts).map (·.1)).Nodup := by
+  have h := groupBy_spec groupKey ts
+  refine ⟨h, ?_, ?_⟩
+  · intro t ht g hg
+    rw [h] at hg
+    obtain ⟨k, _, rfl⟩ := List.mem_map.1 hg
+    simp only [List.mem_filter, ht, true_and, beq_iff_eq]
+    exact eq_comm
+  · rw [h, List.map_map]
+    have : ((fun g : String × List GTrace => g.1) ∘ fun k => (k, ts.filter (fun t => groupKey t == k))) = id := rfl
+    rw [this, List.map_id]
+    exact nodup_eraseDups _
+
+/-- traces are merged only within a group and only within a type: every output trace of `group_traces` consists of inputs with
+ONE group key and ONE type; a merged mesh / scatter output is `merge_mesh3d` / `merge_scatter3d` of at least two `mesh3d` /
+`scatter3d` inputs (so by `merge_mesh3d_preserves_faces` / `merge_scatter3d_preserves_polylines` it contains exactly its
+members' faces / polylines); traces of any other type are passed through one by one; and the outputs' members are exactly
+the inputs (nothing is dropped, nothing invented). -/
+theorem group_traces_merges_within_group (ts : List GTrace) :
+    (∀ o ∈ groupTraces ts,
+      (∃ k ty, ∀ t ∈ o.members, groupKey t = k ∧ t.ty = ty ∧ t ∈ ts) ∧
+      (∀ m, o = .mergedMesh m → 2 ≤ m.length ∧ ∀ t ∈ m, t.ty = "mesh3d") ∧
+      (∀ m, o = .mergedScatter m → 2 ≤ m.length ∧ ∀ t ∈ m, t.ty = "scatter3d")) ∧
+    (∀ t, t ∈ (groupTraces ts).flatMap GOut.members ↔ t ∈ ts) := by
+  constructor
+  · intro o ho
+    unfold groupTraces at ho
+    rw [groupBy_spec] at ho
+    simp only [List.mem_flatMap, List.mem_map] at ho
+    obtain ⟨g, ⟨k, _, rfl⟩, ho⟩ := ho
+    obtain ⟨⟨ty, h1⟩, h2, h3⟩ := mergeTraces_outputs _ o ho
+    refine ⟨⟨k, ty, fun t ht => ?_⟩, h2, h3⟩
+    obtain ⟨e1, e2⟩ := h1 t ht
+    obtain ⟨m1, m2⟩ := List.mem_filter.1 e2
+    exact ⟨by simpa using m2, e1, m1⟩
+  · intro t
+    unfold groupTraces
+    constructor
+    · intro h
+      obtain ⟨o, ho, ht⟩ := List.mem_flatMap.1 h
+      obtain ⟨g, hg, ho'⟩ := List.mem_flatMap.1 ho
+      have : t ∈ g.2 := (mem_mergeTraces_members g.2 t).1 (List.mem_flatMap.2 ⟨o, ho', ht⟩)
+      exact (mem_groupBy_members groupKey ts t).1 ⟨g, hg, this⟩
+    · intro ht
+      obtain ⟨g, hg, h⟩ := (mem_groupBy_members groupKey ts t).2 ht
+      obtain ⟨o, ho, h'⟩ := List.mem_flatMap.1 ((mem_mergeTraces_members g.2 t).2 h)
+      exact List.mem_flatMap.2 ⟨o, List.mem_flatMap.2 ⟨g, hg, ho⟩, h'⟩
+
+/-- the key string is built WITHOUT separators (`"".join`), so different property tuples can give the same key: a trace in
+subplot (row 1, col 12) and one in subplot (row 11, col 2) with otherwise equal properties share the key and are merged into ONE
+trace (which keeps the first one's row / col).  On the real code: showing the same object in these two subplots raises
+`KeyError: (11, 2)` (known finding; `group` rows with such pairs are in the stream). -/
+theorem group_key_collision_witness :
+    groupKey { ty := "mesh3d", props := [("row", "1"), ("col", "12")], facecolorNone := true, id := 0 } =
+      groupKey { ty := "mesh3d", props := [("row", "11"), ("col", "2")], facecolorNone := true, id := 1 } := by
+  simp [groupKey, commonKeys, specKeys, keyPart, List.lookup]
+
+/-- upper-case prefixes: the regenerated table lists every power of `_UNIT_PREFIX` (incl. M, G, T, P, E, Z, Y = 6 … 24) and
+d, c, and `unit_factor_table` gives each of them the factor `10^(-power)`: a prefix read case-insensitively ('Mm' as milli)
+changes the recorded exponent of its row and breaks `unit_factor_table` -/
+theorem unit_table_powers :
+    Units.table.map (·.1) = [-24, -21, -18, -15, -12, -9, -6, -3, 3, 6, 9, 12, 15, 18, 21, 24, -1, -2] ∧
+    (Units.table.filter (fun r => decide (6 ≤ r.1))).map (fun r => (r.1, r.2.2)) =
+      [(6, -6), (9, -9), (12, -12), (15, -15), (18, -18), (21, -21), (24, -24)] := by decide
+
 end MagpyVerif.C19
